@@ -123,6 +123,11 @@ def run_case(sh, es, rng, db, pool, tunits, k):
             return
         tol_s = 2e-9 + 8 * ulp(d_float)
         ns_c = dt_ns(rc)
+        if ns_c is None and rc.get("stage") == "type" and d_float == 0:
+            # `t + 0 hour`: a literal zero is dimension-polymorphic in numbat and `DateTime + <polymorphic>` is rejected by
+            # the type checker. That is a typing rule, not date arithmetic: nothing to judge for C19.
+            sh.count("zero-literal duration rejected by the type checker (polymorphic zero; not judged)")
+            return
         if ns_c is None:
             sh.violation(case, f"`{code_c}` fails although the exact result is in range: {rc.get('kind')}: {rc.get('msg')}")
             return
